@@ -232,6 +232,7 @@ func (g *Gen) EdgeBlocks() []Blk {
 		mk(cid.DagProtobuf, mh.SHA2_512, g.bytes(3)),
 		{cid.NewCidV0(sh), d}, // CIDv0 of the same multihash
 		mk(cid.Raw, mh.SHA2_256, g.bytes(130)), // 2-byte length prefix
+		mk(cid.Raw, mh.IDENTITY, g.bytes(80)),  // an identity CID longer than every hashed CID (84 bytes)
 	}
 	out = append(out, out[0]) // a repeated block
 	return out
